@@ -27,7 +27,7 @@ from collections import deque
 
 from harness.replay import hosts as hh
 from harness.replay.hosts import HostsHarness, HarnessError, T, CTL, num_of, task_dict, task_tuple
-from harness.sim.simconn import FakeNode
+from harness.sim.simconn import FakeNode, SimCondition, SimWorld
 from harness import wire
 
 import cassandra.cluster as ccluster
@@ -40,9 +40,17 @@ CONSTS = {"Hosts": set(HOSTS), "Known0": set(HOSTS), "Sessions": {1}, "Ignored":
 OUT_CLASSES = {"NoHostAvailable", "OperationTimedOut", "InvalidRequest", "ConnectionException", "ConnectionShutdown"}
 
 
+def _on_block(obj, timeout):
+    # a blocking wait inside the driver (borrow_connection on a full connection): let virtual time pass, a hair more
+    # than asked, so that `remaining = timeout - (now - start); if remaining < 0: break` ends as under real time
+    if isinstance(obj, SimCondition):
+        SimWorld.current.clock.advance(max(timeout or 0.0, 0.0) + 1e-6)
+
+
 class DriverHarness(HostsHarness):
     def __init__(self, nreqs=4):
         HostsHarness.__init__(self, dict(CONSTS))
+        self.world.on_block = _on_block
         self.sess = self.sessions[1]
         self.rot = 0
         self.lbp.make_query_plan = self._plan
@@ -55,6 +63,7 @@ class DriverHarness(HostsHarness):
         self.reqs = {}             # r -> dict(fut, cb, eb, kind, att)
         self.nreqs = nreqs
         self.frames = []           # (connection object, stream, query) of every request frame seen on pool connections
+        self.deferred = []
         self._see_pools()
 
     # ------------------------------------------------------------------ doubles
@@ -66,12 +75,35 @@ class DriverHarness(HostsHarness):
     def _auto(self, node, p):
         q = p.req.get("query", "")
         if p.req.get("op") == "QUERY" and q.startswith('USE "'):          # Connection.set_keyspace_*: answered at once
+            if getattr(p.conn, "_drv_in_feed", 0):
+                # sent from inside the connection's own read handler (keyspace fan-out run by the USE answer): a reactor
+                # never re-enters its read handler, so the answer is delivered when that handler has returned
+                self.deferred.append((node, p))
+                return None
             return FakeNode.default_answer(node, p)
         return None
 
+    def _flush(self):
+        while self.deferred:
+            node, p = self.deferred.pop(0)
+            if p in node.pending:
+                FakeNode.default_answer(node, p)
+
+    @staticmethod
+    def _guard_feed(c):
+        feed = c.feed
+
+        def guarded(data):
+            c._drv_in_feed = getattr(c, "_drv_in_feed", 0) + 1
+            try:
+                return feed(data)
+            finally:
+                c._drv_in_feed -= 1
+        c.feed = guarded
+
     def _tap(self, node, conn, req, frame):
         if req.get("op") == "QUERY" and (req["query"].startswith("SELECT r") or req["query"].startswith("USE ks")):
-            self.frames.append((conn, frame.stream, req["query"], conn.keyspace))
+            self.frames.append((conn, frame.stream, req["query"], conn.keyspace, self.sess.keyspace))
         return False
 
     def _see_pools(self):
@@ -82,6 +114,7 @@ class DriverHarness(HostsHarness):
                 self.cnum[id(pool)] = n
                 c = pool._connection
                 self.cobj[n] = (pool, c)
+                self._guard_feed(c)
                 if c.in_flight == 0 and not c._requests:
                     c.max_request_id = MAXID
                     c.request_ids = deque(range(MAXID + 1))
@@ -107,6 +140,7 @@ class DriverHarness(HostsHarness):
     # ------------------------------------------------------------------ operations
     def do(self, act):
         getattr(self, "act_" + act["name"])(act)
+        self._flush()
         self._see_pools()
         return self.project()
 
@@ -117,7 +151,7 @@ class DriverHarness(HostsHarness):
         self.rot = act.get("rot", 0)
         use = act.get("x") or ""
         d = self.reqs[r] = {"fut": None, "cb": 0, "eb": 0, "use": use, "exc": None}
-        q = ("USE %s" % use) if use else ("SELECT r%d" % r)
+        q = self._query_of(r, d)
         try:
             fut = self.sess.execute_async(q, timeout=TIMEOUT)
         except Exception as ex:           # noqa: BLE001 - refused synchronously
@@ -192,6 +226,7 @@ class DriverHarness(HostsHarness):
             installed = self.sess._pools.get(pool.host) is pool
             conns.append({"h": num_of(c.endpoint.address), "open": is_open, "ks": c.keyspace or "",
                           "infl": c.in_flight if is_open else 0, "reg": reg if is_open else [],
+                          "free": sorted(set(c.request_ids)) if is_open else [], "sig": bool(c.signaled_error),
                           "orph": sorted(c.orphaned_request_ids) if is_open else [], "owed": owed if is_open else [],
                           "inst": installed})
         reqs = []
@@ -213,8 +248,8 @@ class DriverHarness(HostsHarness):
                 out = "ok"
             else:
                 out = "none"
-            att = [[num_of(c.endpoint.address), self.conn_number(c), sid, ks or ""] for c, sid, q, ks in self.frames
-                   if q == self._query_of(r, d)]
+            att = [[num_of(c.endpoint.address), self.conn_number(c), sid, ks or "", sk or ""]
+                   for c, sid, q, ks, sk in self.frames if q == self._query_of(r, d)]
             t = fut._timer
             armed = bool(t is not None and not t.canceled and not getattr(t, "_fired", False))
             try:
@@ -230,7 +265,7 @@ class DriverHarness(HostsHarness):
         return p
 
     def _query_of(self, r, d):
-        return ("USE %s" % d["use"]) if d["use"] else ("SELECT r%d" % r)
+        return ("USE %s /*r%d*/" % (d["use"], r)) if d["use"] else ("SELECT r%d" % r)
 
     def _req_of_query(self, q):
         for r, d in self.reqs.items():
